@@ -3,7 +3,7 @@ from plans import step
 PLAN = dict(
     coq_targets=["Props/C10.vo"],
     steps=[
-        step("footprint-x86", "codegen-x86", "heap-x86", 0, 0, viol=r"class=heap-footprint"),
+        step("footprint-x86", "codegen-x86", "heap-x86", 150, 6000, shards_thorough=12, viol=r"class=heap-footprint"),
         step("footprint-families-x86", "c10-x86", "c10-x86", 0, 0, viol=r"class=heap-footprint"),
     ],
     rule="(i) every corpus program, real x86-64 code on the ISA model, 4 argument tuples: blocks below the final frontier <= peak (counted + deferred) "
